@@ -24,6 +24,23 @@ THEOREMS = [
     "clusterFlips_spec",
     "clusterFlips_half",
     "clusterFlips_weight0",
+    # step A: the decomposition (components of the leg graph are exactly the atoms of the update)
+    "compLab_is_component_min",
+    "compLab_eq_iff_connected",
+    "clusterMove_edge_closed",
+    "clusterMove_union_of_components",
+    "flipConfig_clusterMove",
+    "flipComponent_clusterMove",
+    "components_are_atoms",
+    "numClusters_eq_components",
+    "legGraph_nlegs_hasEdge",
+    "flipComponent_involutive",
+    "flipComponent_comm",
+    "flipComponent_skeleton",
+    "flipComponent_weight",
+    "clusterMove_shapeOk",
+    # step B: the exact executable model lands in the relation
+    "clusterUpdate_is_clusterMove",
 ]
 
 RULE = ("synthetic valid strings (1..6 spins quick / 1..9 thorough; per world line 0 / exactly 1 / many constant ops, idle "
@@ -31,8 +48,11 @@ RULE = ("synthetic valid strings (1..6 spins quick / 1..9 thorough; per world li
         "imaginary time so ops wrap the boundary) installed with FastOps::new_from_ops, plus equilibrium strings from real "
         "Ising runs (h = 0 and h != 0) and generic runs; each is flipped by the real flip_each_cluster(_ising_symmetry)_rng / "
         "single_cluster_step / Qmc::cluster_update under random, all-accept, mixed, all-reject scripts (kind move) and under "
-        "single-accept scripts, one per cluster, threshold probed at 2^63-1 / 2^63 / 0 (kind single). Non-trivial = at least "
-        "one operator (move) / at least two clusters (single); distinct = distinct (before, after, draws).")
+        "single-accept scripts, one per cluster, threshold probed at 2^63-1 / 2^63 / 0 (kind single). Every move run is also "
+        "compared with the exact model clusterUpdate (kind exact: output state, output string incl. tags, returned count and "
+        "draw verdict must be identical; the traversal's own boundary labels must name the proved components). Non-trivial = "
+        "at least one operator (move) / at least two clusters (single) / at least two clusters and a changed configuration "
+        "(exact); distinct = distinct (before, after, draws).")
 
 
 def main(ck):
